@@ -3,6 +3,7 @@ package rules
 import (
 	"fmt"
 	"go/token"
+	"go/types"
 	"gofasta-verif/eval"
 	"sort"
 	"syscall"
@@ -71,6 +72,31 @@ func C19(c *core.Ctx) {
 	wset := map[*ssa.Function]bool{}
 	for f := range writers {
 		wset[f] = true
+	}
+	// a helper that receives from an error channel and returns what it received stands in for the receive itself: the
+	// write errors of the stages travel through it, so every call of it is on the write path
+	for _, f := range p.funcs {
+		if f.Parent() != nil || errResultIndex(f.Signature) < 0 {
+			continue
+		}
+		forwards := false
+		allInstrs(f, func(_ *ssa.Function, ins ssa.Instruction) {
+			switch x := ins.(type) {
+			case *ssa.UnOp:
+				if ch, ok := x.X.Type().Underlying().(*types.Chan); ok && x.Op == token.ARROW && isErrorType(ch.Elem()) {
+					forwards = true
+				}
+			case *ssa.Select:
+				for _, st := range x.States {
+					if ch, ok := st.Chan.Type().Underlying().(*types.Chan); ok && st.Dir == types.RecvOnly && isErrorType(ch.Elem()) {
+						forwards = true
+					}
+				}
+			}
+		})
+		if forwards {
+			wset[f] = true
+		}
 	}
 	for changed := true; changed; {
 		changed = false
